@@ -4,7 +4,7 @@
 //! deliberate differences are the `Apollo…` rules of that validator.  Every disagreement gets a
 //! stable key (`apollo-accepts:<rule>` / `apollo-rejects:<apollo error name>`; a disagreement that
 //! disappears under exactly one known-defect emulation gets that defect's key).
-//! Correspondence streams: c17.samevalue, c17.shape, c17.subscription, c17.merge, c17.mergespec,
+//! Correspondence streams: c17.samevalue, c17.shape, c17.subscription, c17.merge, c17.mergecached, c17.mergespec,
 //! c17.unusedfrag.
 use crate::specexec::{self as spec, Kind, Quirks};
 use crate::util::*;
@@ -853,6 +853,7 @@ fn merge_case(ctx: &mut Ctx, schema: &Valid<Schema>, text: &str) {
     ctx.stat(if conflict { "merge:conflict" } else { "merge:ok" });
     if e.len() < 6000 {
         ctx.case("c17.merge", &[enc(&e)], if conflict { "conflict" } else { "ok" });
+        ctx.case("c17.mergecached", &[enc(&e)], if conflict { "conflict" } else { "ok" });
         let spec_ok = spec::root_fields_can_merge(schema, &doc);
         ctx.case("c17.mergespec", &[enc(&e)], if spec_ok { "ok" } else { "conflict" });
     }
